@@ -11,7 +11,11 @@ RULE = ("exhaustive: every symbol of every DNA encoding (ASCII: the ten letters 
         "EncodedRaggedArray/SequenceEntry; every (start, stop, strand) interval on short sequences plus random interval sets "
         "through get_strand_specific_sequences and GenomicSequence.extract_intervals(stranded=True); all 64 codons (upper "
         "and lower case), all codon pairs (thorough), random concatenations in ragged lists with empty rows. "
-        "Non-trivial = contains lower case or N, or a '-' strand, or >= 2 codons")
+        "Non-trivial = contains lower case or N, or a '-' strand, or >= 2 codons. Also: get_sequences / extract_intervals("
+        "stranded=False) / genomic_sequence[intervals] (stranded iff the interval object is) / the indexed-FASTA backend with "
+        "wrapped lines / chromosome access; transcript sequences (genes.py) incl. an empty table; encodings that are not DNA "
+        "(must be refused); fresh views of ragged inputs and of the interval table; >= 17 intervals/rows; call sequences whose "
+        "results are read after the last call")
 EXHAUSTIVE = {"quick": False, "thorough": False}
 MODEL_OPS = {"rc", "strand", "translate", "transcripts"}
 CASE_TIMEOUT_S = 60
@@ -33,7 +37,10 @@ MANIFEST = {
             "extraction = forward slice for '+', its reverse complement for '-' (both entry points, modelled along the code path: "
             "ragged view by interval bounds / one Python slice per interval, where_rows = np.repeat row mask + flat where + re-wrap, "
             "proved equal to row selection); transcript sequences (genes.py: exon slices joined per run of transcript ids, "
-            "reverse-complemented as a whole for '-'); translation of every row with "
+            "reverse-complemented as a whole for '-'); each entry point on ANY strand byte (strand_dna_def, "
+            "extract_stranded_def; they differ on '.'); completeness (revcompRagged_isSome_iff, translate_encoding_error_iff, "
+            "translate_assertion_iff); the spec pinned by list laws (specRevComp_append/_flatten/_getElem?, chunks3_flatten, "
+            "specTranslate_append, stop_codons_iff); translation of every row with "
             "3 | length = standard genetic code per codon (written by amino-acid families). The complement tables of ASCII/ACGT/"
             "ACGTN/ACTG/ACTGN and the 64-codon table are re-extracted behaviourally from /repo on every run into Gen/C14.lean and "
             "re-checked by the kernel (decide +kernel). Correspondence: implementation vs Lean model vs Lean spec vs Python oracle "
@@ -201,6 +208,11 @@ def oracle(c):
             _bio_check("rc", v, r)
             out.append(r)
         return {"rows": out, "enc_same": True}
+    if op == "chrom":
+        v = _enc_view("ACGTN", c["seqs"][c["k"]])
+        return SKIP if v is None else {"rows": [v]}
+    if op == "rc_unsupported":
+        return {"err_any": True}      # not a DNA encoding: must be refused, never answered
     if op == "strand":
         views = [_enc_view(c["enc"], s) for s in c["seqs"]]
         if any(v is None for v in views) or not c["ivs"]:
@@ -210,7 +222,7 @@ def oracle(c):
             if not (0 <= a <= b <= len(views[ch])) or st not in (43, 45):
                 return SKIP
             sub = views[ch][a:b]
-            out.append(sub if st == 43 else _revcomp(sub))
+            out.append(sub if (st == 43 or c["via"] in ("plain", "unstranded")) else _revcomp(sub))
         return {"rows": out, "enc_same": True}
     if op in ("translate", "translate_enc"):
         rows = c["rows"]
@@ -233,8 +245,10 @@ def oracle(c):
 
 def _transcripts_expect(seq, ex):
     seq = _enc_view("ACGTN", seq)
-    if seq is None or not ex:
+    if seq is None:
         return SKIP
+    if not ex:
+        return {"names": [], "rows": []}
     groups = []
     for t, st, a, b in ex:
         if not (0 <= a <= b <= len(seq)) or st not in (43, 45):
@@ -250,6 +264,8 @@ def _transcripts_expect(seq, ex):
 
 
 def agree(c, got, exp):
+    if isinstance(exp, dict) and exp.get("err_any"):
+        return isinstance(got, dict) and "err" in got
     if c["op"] == "seq":
         g = got.get("results") if isinstance(got, dict) else None
         return isinstance(g, list) and len(g) == len(exp["results"]) and \
@@ -404,6 +420,23 @@ def _call(c):
             rows, enc = _rows_out(o, E)
             return {"rows": rows, "enc_same": bool(enc == E)}
         return r, canon_rc
+    if op == "rc_unsupported":
+        from bionumpy.encodings import alphabet_encoding as ae
+        import bionumpy as bnp
+        E = {"ACUG": ae.ACUGEncoding, "AMINO": ae.AminoAcidEncoding, "DIGIT": ae.DigitEncoding,
+             "QUALITY": bnp.encodings.QualityEncoding if hasattr(bnp.encodings, "QualityEncoding") else ae.DigitEncoding}[c["enc"]]
+        x = as_encoded_array(c["text"], E) if c["enc"] != "QUALITY" else EncodedArray(np.array([1, 2, 3], dtype=np.uint8), E)
+        r = get_reverse_complement(x)
+        return r, (lambda o: {"returned": True})
+    if op == "chrom":
+        from bionumpy.genomic_data.genomic_sequence import GenomicSequence
+        names = [f"c{i}" for i in range(len(c["seqs"]))]
+        if c.get("backend") == "fasta":
+            gs, _ = _fasta_genome(names, c["seqs"], c.get("width", 60))
+        else:
+            gs = GenomicSequence.from_dict({n: _text(s) for n, s in zip(names, c["seqs"])})
+        r = gs[names[c["k"]]]
+        return r, (lambda o: {"rows": _rows_out(o, None)[0]})
     if op == "strand":
         E = _encs()[c["enc"]]
         from bionumpy.datatypes import Bed6
@@ -413,13 +446,29 @@ def _call(c):
                    [0] * len(ivs), [chr(i[3]) for i in ivs])
         if "view" in c:
             bed = _apply_view(bed, c["view"])      # the interval table itself is a fresh selection of a larger one
-        if c["via"] == "dna":
+        via = c["via"]
+        if via == "dna":
             from bionumpy.sequence.dna import get_strand_specific_sequences
             r = get_strand_specific_sequences(as_encoded_array(_text(c["seqs"][0]), E), bed)
+        elif via == "plain":
+            from bionumpy.sequence.dna import get_sequences
+            r = get_sequences(as_encoded_array(_text(c["seqs"][0]), E), bed)
         else:
             from bionumpy.genomic_data.genomic_sequence import GenomicSequence
-            gs = GenomicSequence.from_dict({n: _text(s) for n, s in zip(names, c["seqs"])})
-            r = gs.extract_intervals(bed, stranded=True)
+            backend = c.get("backend", "dict")
+            if backend == "fasta":
+                gs, genome = _fasta_genome(names, c["seqs"], c.get("width", 60))
+            else:
+                gs = GenomicSequence.from_dict({n: _text(s) for n, s in zip(names, c["seqs"])})
+                genome = None
+            if c.get("entry") == "getitem":
+                # genomic_sequence[intervals]: stranded iff the interval object says so
+                if genome is None:
+                    import bionumpy as bnp
+                    genome = bnp.Genome.from_dict({n: len(s) for n, s in zip(names, c["seqs"])})
+                r = gs[genome.get_intervals(bed, stranded=(via == "genomic"))]
+            else:
+                r = gs.extract_intervals(bed, stranded=(via == "genomic"))
 
         def canon_strand(o):
             rows, enc = _rows_out(o, E)
@@ -532,15 +581,40 @@ class _DuckEntries:
 _TMP = None
 
 
-def _gtf_entries(exons):
-    """real GTFEntry objects read back from a GTF file (1-based closed coordinates)"""
+def _tmpdir():
     global _TMP
-    import atexit, os, shutil, tempfile
-    import bionumpy as bnp
+    import atexit, shutil, tempfile
     if _TMP is None:
         _TMP = tempfile.mkdtemp(prefix="c14_")
         atexit.register(shutil.rmtree, _TMP, True)
-    path = os.path.join(_TMP, f"t{os.getpid()}.gtf")
+    return _TMP
+
+
+_FA_N = [0]
+
+
+def _fasta_genome(names, seqs, width):
+    """GenomicSequence over an indexed FASTA file (second backend), and its Genome"""
+    import os
+    import bionumpy as bnp
+    _FA_N[0] += 1
+    path = os.path.join(_tmpdir(), f"g{os.getpid()}_{_FA_N[0]}.fa")
+    with open(path, "w") as fh:
+        for n, s in zip(names, seqs):
+            t = _text(s)
+            fh.write(f">{n}\n")
+            for i in range(0, len(t), width):
+                fh.write(t[i:i + width] + "\n")
+    genome = bnp.Genome.from_file(path)
+    gs = genome.read_sequence()
+    return gs, genome
+
+
+def _gtf_entries(exons):
+    """real GTFEntry objects read back from a GTF file (1-based closed coordinates)"""
+    import os
+    import bionumpy as bnp
+    path = os.path.join(_tmpdir(), f"t{os.getpid()}.gtf")
     with open(path, "w") as fh:
         for i, (t, st, a, b) in enumerate(exons):
             fh.write(f'chr1\tsrc\texon\t{a + 1}\t{b}\t.\t{chr(st)}\t.\tgene_id "g{t}"; transcript_id "t{t}"; exon_id "e{i}";\n')
@@ -566,9 +640,11 @@ def model_request(c):
     if op == "strand":
         return {"op": "strand", "enc": c["enc"], "via": c["via"], "codes": [_codes(c["enc"], s) for s in c["seqs"]],
                 "ivs": c["ivs"]}
+    if op in ("rc_unsupported", "chrom"):
+        return None
     if op == "translate":
         return {"op": "translate", "rows": c["rows"]}
-    if op == "transcripts" and c["via"] == "duck":
+    if op == "transcripts" and c["via"] == "duck" and c["exons"]:
         return {"op": "transcripts", "codes": _codes("ACGTN", c["seq"]), "exons": c["exons"]}
     return None   # translate_enc, transcripts read back from a GTF file: implementation vs oracle only
 
@@ -783,6 +859,36 @@ def cases(tier, rng):
                     yield {"op": "strand", "enc": enc, "via": "genomic", "seqs": [s], "ivs": ivs}
                 rows = [[rng.choice(A) for _ in range(l)] for l in lens]
                 yield {"op": "rc", "enc": enc, "rows": rows, "shape": rng.choice(["ragged", "entry"])}
+    # 4b2. the other entry points: get_sequences (unstranded), extract_intervals(stranded=False), genomic_sequence[intervals]
+    #      (stranded iff the interval object is), and the indexed-FASTA backend (wrapped lines)
+    for enc in PROP_ENCS:
+        A = _alpha(enc)
+        for _ in range(120 if big else 20):
+            nseq = rng.choice([1, 2, 3]) if enc == "ACGTN" else 1
+            ss = [[rng.choice(A) for _ in range(rng.choice([1, 3, 6, 12, 20]))] for _ in range(nseq)]
+            ivs = []
+            for _ in range(rng.choice([1, 2, 3, 5])):
+                ch = rng.randrange(nseq)
+                a = rng.randrange(len(ss[ch]) + 1)
+                ivs.append([ch, a, rng.randrange(a, len(ss[ch]) + 1), rng.choice([43, 45])])
+            if nseq == 1:
+                yield {"op": "strand", "enc": enc, "via": "plain", "seqs": ss, "ivs": ivs}
+            if enc == "ACGTN":
+                yield {"op": "strand", "enc": enc, "via": "unstranded", "seqs": ss, "ivs": ivs}
+                yield {"op": "strand", "enc": enc, "via": rng.choice(["genomic", "unstranded"]), "seqs": ss, "ivs": ivs, "entry": "getitem"}
+                if rng.random() < 0.5:
+                    yield {"op": "strand", "enc": enc, "via": rng.choice(["genomic", "genomic", "unstranded"]), "seqs": ss, "ivs": ivs,
+                           "backend": "fasta", "width": rng.choice([1, 3, 4, 7, 60]),
+                           **({"entry": "getitem"} if rng.random() < 0.5 else {})}
+    A5_ = _alpha("ACGTN")
+    for _ in range(30 if big else 6):
+        ss = [[rng.choice(A5_) for _ in range(rng.choice([1, 4, 9]))] for _ in range(rng.choice([1, 2]))]
+        yield {"op": "chrom", "seqs": ss, "k": rng.randrange(len(ss)),
+               **({"backend": "fasta", "width": rng.choice([2, 3, 60])} if rng.random() < 0.5 else {})}
+    # 4b3. encodings that are not DNA are refused
+    for enc, text in (("ACUG", "ACGU"), ("ACUG", "U"), ("AMINO", "ACD"), ("AMINO", "W"), ("DIGIT", "123"), ("QUALITY", "")):
+        yield {"op": "rc_unsupported", "enc": enc, "text": text}
+    yield {"op": "transcripts", "seq": [65, 67, 71], "exons": [], "via": "duck"}
     # 4c. transcript sequences (sequence/genes.py): exons grouped by transcript, '-' transcripts reverse-complemented
     A = _alpha("ACGTN")
     for _ in range(600 if big else 80):
@@ -845,7 +951,7 @@ def cases(tier, rng):
 
 def nontrivial(c):
     op = c["op"]
-    if op == "seq":
+    if op in ("seq", "rc_unsupported", "chrom"):
         return True
     if op == "rc":
         flat = [b for r in c["rows"] for b in r]
@@ -877,6 +983,10 @@ def finding_key(c, got, exp):
         plain = {k: v for k, v in c.items() if k != "view"}
         if agree(plain, impl(plain), exp):
             return f"view:{op}:wrong-on-fresh-{c['view']['kind']}-view"
+    if op == "rc_unsupported":
+        return "revcomp:answers-for-a-non-DNA-encoding"
+    if op == "chrom":
+        return "genomic-sequence:chromosome-text"
     if op == "rc":
         flat = [b for r in c["rows"] for b in r]
         if c["enc"] == "ASCII" and any(b >= 97 for b in flat) and _has_nul(got):
